@@ -4,7 +4,7 @@
   * `Html5Elements`, `HtmlNames`  : output/html5elements.rs (namespace ids, name tables, `matches`,
                                     `is_inline`, `must_be_serialized_unprefixed`, `is_html_namespace`)
   * `htmlMatchesSuppress`         : html5_serializer.rs `html_matches_suppress` (early returns included)
-  * `renderHtml`                  : `Html5Serializer::render_output`
+  * `renderHtml`                  : `Html5Serializer::render_output` (state: name stack + `frames`)
   * `prettifyHtml`                : output/pretty.rs `Pretty::prettify` with the HTML `is_suppressed` /
                                     `is_inline` closures of `serialize_pretty`
   * `writeHtmlGo`, `writeHtmlPrettyGo` : `Html5Serializer::serialize` / `serialize_pretty`
@@ -145,25 +145,50 @@ def htmlPrefixHidden (c : HtmlCtx) (node : Tree) (en p ns : Nat) : Bool :=
     || (p != Env.emptyPrefix && c.h.mustBeUnprefixed ns
         && !node.attrs.any (fun a => c.env.nsOfName a.1 == ns))
 
-/-- `Html5Serializer::render_output(node, output)`; the state is the `FullnameSerializer` stack. -/
-def renderHtml (c : HtmlCtx) (s : FStack) (node : Tree) (parent : Option Tree) :
-    Output → Outcome XotError (FStack × OutputToken)
+/-- The mutable state of an `Html5Serializer`: the `FullnameSerializer` stack and `frames`, the
+    number of stack frames the start tag of each open element pushed (innermost first). -/
+structure HState where
+  stack : FStack
+  frames : List Nat
+  deriving Repr, DecidableEq, Inhabited
+
+/-- The declarations of an element that count as bindings of the output: a default-namespace
+    declaration for another namespace than the element's own is not written (`htmlPrefixHidden`)
+    and is left out (`.filter(|(p, ns)| *p != empty_prefix || *ns == namespace_id)`). -/
+def htmlDeclarations (node : Tree) (ns : Nat) : List (Nat × Nat) :=
+  node.nsDecls.filter (fun d => d.1 != Env.emptyPrefix || d.2 == ns)
+
+/-- `for _ in 0..n { self.fullname_serializer.pop(true) }`. -/
+def popFrames : Nat → FStack → FStack
+  | 0, s => s
+  | n + 1, s => popFrames n (s.pop true)
+
+/-- The `EndTag` epilogue: `frames.pop().unwrap_or(0)` frames are popped. -/
+def HState.endElement (s : HState) : HState :=
+  ⟨popFrames (s.frames.headD 0) s.stack, s.frames.tail⟩
+
+/-- `Html5Serializer::render_output(node, output)`. -/
+def renderHtml (c : HtmlCtx) (s : HState) (node : Tree) (parent : Option Tree) :
+    Output → Outcome XotError (HState × OutputToken)
   | .startTagOpen name =>
-    let s1 := s.push node.nsDecls
     let ns := c.env.nsOfName name
+    let decls := htmlDeclarations node ns
+    let frames := if decls.isEmpty then 0 else 1
+    let s1 := s.stack.push decls
     if c.h.mustBeUnprefixed ns && !s1.hasEmptyPrefix ns then
-      .ok (s1.addEmptyPrefix ns,
+      -- the injected default namespace gets a frame of its own
+      .ok (⟨s1.push [(Env.emptyPrefix, ns)], (frames + 1) :: s.frames⟩,
         ⟨false, fmt fmtHtmlStartTagOpenNs [c.env.localName name, serializeAttributeHtml (c.env.namespaceStr ns)]⟩)
     else
       match s1.elementFullname c.env name with
-      | .ok full => .ok (s1, ⟨false, fmt fmtHtmlStartTagOpen [full]⟩)
+      | .ok full => .ok (⟨s1, frames :: s.frames⟩, ⟨false, fmt fmtHtmlStartTagOpen [full]⟩)
       | .error e => .err e
   | .startTagClose => .ok (s, ⟨false, litHtmlTagClose⟩)
   | .endTag name =>
-    if c.h.void.matches c.env name then .ok (s.pop node.hasNsDecls, ⟨false, litHtmlVoidEndTag⟩)
+    if c.h.void.matches c.env name then .ok (s.endElement, ⟨false, litHtmlVoidEndTag⟩)
     else
-      match s.elementFullname c.env name with
-      | .ok full => .ok (s.pop node.hasNsDecls, ⟨false, fmt fmtHtmlEndTag [full]⟩)
+      match s.stack.elementFullname c.env name with
+      | .ok full => .ok (s.endElement, ⟨false, fmt fmtHtmlEndTag [full]⟩)
       | .error e => .err e
   | .pfx p ns =>
     match node.value with
@@ -175,10 +200,10 @@ def renderHtml (c : HtmlCtx) (s : FStack) (node : Tree) (parent : Option Tree) :
         .ok (s, ⟨true, fmt fmtHtmlXmlnsPrefix [c.env.prefixStr p, serializeAttributeHtml (c.env.namespaceStr ns)]⟩)
     | _ => .panic  -- `self.xot.element(node).unwrap()`
   | .attribute name value =>
-    match s.attributeFullname c.env name with
+    match s.stack.attributeFullname c.env name with
     | .error e => .err e
     | .ok full =>
-      match htmlIsBooleanAttr c s name value with
+      match htmlIsBooleanAttr c s.stack name value with
       | .error e => .err e
       | .ok true => .ok (s, ⟨true, fmt fmtHtmlBooleanAttr [full]⟩)
       | .ok false => .ok (s, ⟨true, fmt fmtHtmlAttribute [full, htmlAttrValue c name value]⟩)
@@ -194,15 +219,15 @@ def renderHtml (c : HtmlCtx) (s : FStack) (node : Tree) (parent : Option Tree) :
 
 /-- `render_output` for the node at `path` in `t` (a non-existing path cannot occur: the paths come
     from `genOutputs`; it is answered `panic`). -/
-def renderHtmlAt (c : HtmlCtx) (t : Tree) (s : FStack) (path : Path) (o : Output) :
-    Outcome XotError (FStack × OutputToken) :=
+def renderHtmlAt (c : HtmlCtx) (t : Tree) (s : HState) (path : Path) (o : Output) :
+    Outcome XotError (HState × OutputToken) :=
   match t.at? path with
   | some node => renderHtml c s node (t.parentAt? path) o
   | none => .panic
 
 /-- The rendered stream: `outputs.map(render_output)` up to the first failure. -/
 def renderHtmlAll (c : HtmlCtx) (t : Tree) :
-    FStack → List (Path × Output) → Outcome XotError (List (Path × Output × OutputToken))
+    HState → List (Path × Output) → Outcome XotError (List (Path × Output × OutputToken))
   | _, [] => .ok []
   | s, (p, o) :: rest =>
     match renderHtmlAt c t s p o with
@@ -218,7 +243,7 @@ def renderHtmlAll (c : HtmlCtx) (t : Tree) :
 def htmlTokenBytes (k : OutputToken) : Str := (if k.space then htmlTokenSpace else []) ++ k.text
 
 /-- `Html5Serializer::serialize(w, outputs)`: bytes written and how the loop ended. -/
-def writeHtmlGo (c : HtmlCtx) (t : Tree) : FStack → List (Path × Output) → Str × Outcome XotError Unit
+def writeHtmlGo (c : HtmlCtx) (t : Tree) : HState → List (Path × Output) → Str × Outcome XotError Unit
   | _, [] => ([], .ok ())
   | s, (p, o) :: rest =>
     match renderHtmlAt c t s p o with
@@ -276,7 +301,7 @@ def htmlIndentBytes (n : Nat) : Str := (List.replicate (n * htmlIndentWidth) htm
 /-- `Html5Serializer::serialize_pretty(w, outputs, suppress)`: the indentation is written before
     `serialize_node` can fail. -/
 def writeHtmlPrettyGo (c : HtmlCtx) (suppress : List Nat) (t : Tree) :
-    PStack → FStack → List (Path × Output) → Str × Outcome XotError Unit
+    PStack → HState → List (Path × Output) → Str × Outcome XotError Unit
   | _, _, [] => ([], .ok ())
   | ps, s, (p, o) :: rest =>
     let (ps', ind, nl) := prettifyHtmlAt c suppress t ps p o
@@ -301,12 +326,24 @@ def htmlCtx (env : Env) (p : HtmlParams) : HtmlCtx :=
   let (env', h) := Html5Elements.new env
   ⟨env', h, p.cdataSectionElements⟩
 
+/-- `Html5Serializer::new`: the stack starts with `namespaces_in_scope(node)` minus an inherited
+    default namespace other than the top element's own (it is not written, so it is no binding
+    of the output); no element is open. -/
+def htmlInitState (c : HtmlCtx) (t : Tree) (start : Path) : HState :=
+  let topNamespace : Option Nat := match t.at? start with
+    | some n => (match n.value with
+      | .element name => some (c.env.nsOfName name)
+      | _ => none)
+    | none => none
+  ⟨FStack.new (((namespacesInScope t start).getD []).filter
+      (fun d => d.1 != Env.emptyPrefix || some d.2 == topNamespace)), []⟩
+
 /-- `xot.html5().serialize_write(parameters, node, w)`: bytes written and how the call ended. -/
 def serializeHtmlWrite (env : Env) (p : HtmlParams) (t : Tree) (start : Path) : Str × Outcome XotError Unit :=
   let c := htmlCtx env p
   let body := match p.indentation with
-    | some suppress => writeHtmlPrettyGo c suppress t [] (initStack t start) (genOutputs t start)
-    | none => writeHtmlGo c t (initStack t start) (genOutputs t start)
+    | some suppress => writeHtmlPrettyGo c suppress t [] (htmlInitState c t start) (genOutputs t start)
+    | none => writeHtmlGo c t (htmlInitState c t start) (genOutputs t start)
   (htmlDoctype ++ body.1, body.2)
 
 /-- `xot.html5().serialize_string(parameters, node)`. -/
